@@ -21,6 +21,13 @@ def cases(rng, tier):
         n = rng.randint(0, 5)
         k = rng.choice([0, 1, 2, 3, 4, 5, 7, 8, rng.randint(0, maxlen)])
         gates = [gen.random_gate(rng, n, kinds=gen.ALL_KINDS + ["qft"]) for _ in range(k)]
+        # neighbouring equal factors (the same gate two or three times in a row), and h on overlapping masks
+        if gates and rng.random() < 0.35:
+            p = rng.randrange(len(gates))
+            gates[p + 1:p + 1] = [gates[p]] * rng.choice([1, 1, 2])
+        if n and rng.random() < 0.15:
+            m = rng.randrange(1, 1 << n)
+            gates += [("h", m), ("h", m & rng.randrange(1, 1 << n) or m)]
         j = rng.randrange(1 << n)
         # (ii) factor by factor
         cs.append({"kind": "applyseq", "n": n, "j": j, "es": gates})
@@ -30,6 +37,23 @@ def cases(rng, tier):
         if k and rng.random() < 0.5:
             e2 = bracket(rng, gates)
             cs.append({"kind": "applyraw", "n": n, "raw": gen.random_state(rng, n), "e": e2, "threads": rng.choice([1, 1, 2, 3])})
+    # registers of 11-13 qubits (beyond any block size a kernel might work in; too large for the model's buffers):
+    # products of one-qubit gates on the high qubits mixed with gates on the low ones, as one product against factor by
+    # factor, on basis states with the high qubits set
+    for _ in range(24 if tier == "quick" else 600):
+        n = rng.choice([11, 12, 13])
+        gates = []
+        for _ in range(rng.randint(2, 6)):
+            q = rng.choice([0, 1, 5, 8, 9, 10, 10, 11, 12, n - 1])
+            q = min(q, n - 1)
+            kind = rng.choice(["x", "y", "z", "s", "t", "h", "rx", "ry", "rz"])
+            g = gen.gate(kind, 1 << q, rng)
+            if rng.random() < 0.25:
+                c = 1 << rng.choice([x for x in range(n) if x != q])
+                g = ("c", c, g)
+            gates.append(g)
+        j = rng.getrandbits(n) | (1 << rng.choice([9, 10, n - 1]))
+        cs.append({"kind": "applyseq", "n": n, "j": j, "es": gates, "no_model": True})
     # empty products (identity, h / qft on the empty mask, products of those) on dense states, both threading models
     for e in (("id",), ("h", 0), ("qft", 0), ("mul", ("id",), ("id",)), ("mul", ("h", 0), ("id",)), ("dgr", ("id",))):
         for th in (1, 2, 4):
